@@ -58,6 +58,12 @@ impl RandomPolicy {
         }
     }
 
+    /// Verification hook: the accounted memory usage.
+    #[cfg(memcrs_verif)]
+    pub fn verif_memory_usage(&self) -> u64 {
+        self.memory_usage.load(atomic::Ordering::Acquire)
+    }
+
     fn decr_mem_usage(&self, value: u64) -> u64 {
         self.memory_usage
             .fetch_sub(value, atomic::Ordering::Release)
